@@ -44,7 +44,7 @@ func (Engine) Budget(tier, prop string) (int, int) {
 	if tier == "thorough" {
 		return 30000, 1100
 	}
-	return 2400, 150
+	return 4000, 150
 }
 
 func (Engine) Describe() simcore.Description {
